@@ -703,6 +703,238 @@ fn whiten_empty(cx: &mut Ctx, p: usize) {
     cx.out.rust_eval(&desc, None);
 }
 
+// ---------------------------------------------------------------------------------------------
+// round 5: histories (state between calls) and the row order of the fitting data - Rust-side oracle bit 16384
+const HIST: u64 = 16384;
+fn opt_biteq<F: Fl>(a: &Option<Vec<Vec<F>>>, b: &Option<Vec<Vec<F>>>) -> bool {
+    match (a, b) { (Some(x), Some(y)) => biteq(x, y), (None, None) => true, _ => false }
+}
+type Tr<'a, F> = &'a dyn Fn(&[Vec<F>], bool) -> Option<Vec<Vec<F>>>;
+/// `used` is applied to B1 and then to B2; `fresh` is a clone taken before any use. B2 must come out bit for bit as
+/// from the clone, as row by row, and as from the row-permuted B2 (permuted back); a repetition changes nothing.
+fn history_check<F: Fl>(r: &mut Sm64, used: Tr<F>, fresh: Tr<F>, b1: &[Vec<F>], b2: &[Vec<F>]) -> Option<String> {
+    let (lay1, lay2) = (r.chance(0.3), r.chance(0.3));
+    let _ = used(b1, lay1);
+    let y2 = used(b2, lay2);
+    if !opt_biteq(&y2, &fresh(b2, lay2)) { return Some("image of B2 after B1 differs from that of a clone that never saw B1".into()); }
+    let y2 = match y2 { Some(v) => v, None => return Some("transform panicked on B2".into()) };
+    if y2.len() != b2.len() { return Some("image of B2 has another number of rows".into()); }
+    for (i, row) in b2.iter().enumerate() {
+        let yi = used(&[row.clone()], false);
+        if yi.as_ref().map_or(true, |v| !biteq(v, &[y2[i].clone()])) {
+            return Some(format!("row {} of B2 applied alone differs from its image inside the batch", i));
+        }
+    }
+    if b2.len() >= 2 {
+        let mut idx: Vec<usize> = (0..b2.len()).collect();
+        r.shuffle(&mut idx);
+        let xs: Vec<Vec<F>> = idx.iter().map(|&i| b2[i].clone()).collect();
+        match used(&xs, r.chance(0.3)) {
+            Some(yp) if yp.len() == xs.len() => {
+                let mut back = y2.clone();
+                for (k, &i) in idx.iter().enumerate() { back[i] = yp[k].clone(); }
+                if !biteq(&back, &y2) { return Some("image of the row-permuted B2 (permuted back) differs from the image of B2".into()); }
+            }
+            _ => return Some("transform panicked on the row-permuted B2".into()),
+        }
+    }
+    if !opt_biteq(&used(b2, lay2), &Some(y2)) { return Some("second application to B2 differs from the first".into()); }
+    None
+}
+/// two batches derived from the rows of x: copies, affine images (partly outside the training range), sign flips
+fn hist_batches<F: Fl>(r: &mut Sm64, x: &[Vec<F>]) -> (Vec<Vec<F>>, Vec<Vec<F>>) {
+    let mut mk = |r: &mut Sm64, k: usize| -> Vec<Vec<F>> {
+        (0..k).map(|_| {
+            let row = &x[r.below(x.len() as u64) as usize];
+            if r.chance(0.3) { row.clone() } else {
+                let a = *r.pick(&[1.0, -1.0, 2.0, 0.5, 1.0e3]);
+                let b = *r.pick(&[0.0, 1.0, -3.0]);
+                row.iter().map(|v| F::of(a * v.to64() + b)).collect()
+            }
+        }).collect()
+    };
+    let k1 = 1 + r.below(6) as usize;
+    let k2 = 1 + r.below(6) as usize;
+    (mk(r, k1), mk(r, k2))
+}
+/// parameters of two standard-scaler fits on the same rows in another order: equal up to the summation order
+fn std_params_close<F: Fl>(x: &[Vec<F>], p: usize, with_std: bool, o1: &[F], s1: &[F], o2: &[F], s2: &[F]) -> bool {
+    if o1.len() != p || o2.len() != p || s1.len() != p || s2.len() != p { return false; }
+    let n = x.len() as f64;
+    let u = F::eps() / 2.0;
+    (0..p).all(|j| {
+        let c: Vec<f64> = x.iter().map(|r| r[j].to64()).collect();
+        let maxabs = c.iter().fold(0.0f64, |a, v| a.max(v.abs()));
+        let mean = c.iter().sum::<f64>() / n;
+        let sd = (c.iter().map(|v| (v - mean) * (v - mean)).sum::<f64>() / n).sqrt();
+        if (o1[j].to64() - o2[j].to64()).abs() > 8.0 * n * u * maxabs + F::min_sub() { return false; }
+        if !with_std { return s1[j].bits() == s2[j].bits(); }
+        if !(sd.is_finite() && sd > 4.0 * F::eps()) { return true; }   // at the guard the two orders may legitimately fall on different sides
+        (s1[j].to64() - s2[j].to64()).abs() <= 64.0 * n * u * (1.0 + maxabs / sd) * s1[j].to64().abs()
+    })
+}
+/// one history / row-order case of a linear scaler: fit on x, history on two batches, refit on every permutation in `perms`
+fn hist_lin_case<F: Fl>(cx: &mut Ctx, r: &mut Sm64, m: Meth, x: Vec<Vec<F>>, p: usize, perms: &[Vec<usize>], stream: &str) {
+    let id = cx.id;
+    cx.id += 1;
+    if !cx.out.wanted(id) { return; }
+    let n = x.len();
+    let colmajor = r.chance(0.3);
+    let tags: Vec<String> = vec![format!("method_{}", m.name()), F::NAME.into(), stream.into(), "history".into()];
+    let tr: Vec<&str> = tags.iter().map(|s| s.as_str()).collect();
+    let desc = format!(
+        "{{\"kind\": \"history_linear\", \"dtype\": {}, \"method\": {}, \"colmajor\": {}, \"n\": {}, \"p\": {}, \"permutations\": {:?}, \"X\": {:?}}}",
+        jstr(F::NAME), jstr(&format!("{:?}", m)), colmajor, n, p, perms.iter().take(8).collect::<Vec<_>>(),
+        x.iter().take(8).map(|r| r.iter().map(|v| v.to64()).collect::<Vec<f64>>()).collect::<Vec<_>>()
+    );
+    cx.out.bump(&format!("history_linear_{}", m.name()));
+    cx.out.bump(&format!("history_{}", stream));
+    let fit = |rows_: &[Vec<F>], cm: bool| -> Option<LinearScaler<F>> {
+        let ds = DatasetBase::new(arr(rows_, p, cm), Array2::<i64>::zeros((rows_.len(), 1)));
+        match guarded(AssertUnwindSafe(|| LinearScalerParams::new(m.to::<F>()).fit(&ds))) { Ok(Ok(s)) => Some(s), _ => None }
+    };
+    let s = match fit(&x, colmajor) {
+        Some(s) => s,
+        None => { cx.out.rust_fail(id, 2048, &tr, "LinearScalerParams::fit rejected valid data or panicked", &desc); cx.out.rust_eval(&desc, None); return; }
+    };
+    let fresh = s.clone();
+    let (b1, b2) = hist_batches(r, &x);
+    let used_f = |b: &[Vec<F>], cm: bool| guarded(AssertUnwindSafe(|| s.transform(arr(b, p, cm)))).ok().map(|a| rows(&a));
+    let fresh_f = |b: &[Vec<F>], cm: bool| guarded(AssertUnwindSafe(|| fresh.transform(arr(b, p, cm)))).ok().map(|a| rows(&a));
+    if let Some(w) = history_check::<F>(r, &used_f, &fresh_f, &b1, &b2) {
+        cx.out.rust_fail(id, HIST, &tr, &format!("LinearScaler history: {}", w), &desc);
+    }
+    // the parameters did not change through use
+    if !biteq(&[s.offsets().to_vec(), s.scales().to_vec()], &[fresh.offsets().to_vec(), fresh.scales().to_vec()]) {
+        cx.out.rust_fail(id, HIST, &tr, "LinearScaler: offsets / scales changed through transform calls", &desc);
+    }
+    // row order of the fitting data
+    let numeq = |a: &[F], b: &[F]| a.len() == b.len() && a.iter().zip(b).all(|(x, y)| x.to64() == y.to64());
+    for perm in perms {
+        let xp: Vec<Vec<F>> = perm.iter().map(|&i| x[i].clone()).collect();
+        let cm = r.chance(0.3);
+        let ok = match fit(&xp, cm) {
+            None => false,
+            Some(sp) => match m {
+                Meth::Std(_, ws) => std_params_close(&x, p, ws, s.offsets().as_slice().unwrap(), s.scales().as_slice().unwrap(), sp.offsets().as_slice().unwrap(), sp.scales().as_slice().unwrap()),
+                // order-free minima / maxima: offsets as numbers (a zero offset carries the sign of the last zero), scales bit for bit
+                _ => numeq(s.offsets().as_slice().unwrap(), sp.offsets().as_slice().unwrap()) && biteq(&[s.scales().to_vec()], &[sp.scales().to_vec()]),
+            },
+        };
+        if !ok {
+            cx.out.rust_fail(id, HIST, &tr, &format!("fitted parameters depend on the order of the training rows (permutation {:?})", perm), &desc);
+            break;
+        }
+    }
+    cx.out.bump_by("history_refits_on_permuted_rows", perms.len() as u64);
+    let salt = fnv(format!("hist{:?}{}{}", m, F::NAME, colmajor).as_bytes());
+    cx.out.rust_eval(&desc, if n >= 2 { Some(hash_mat(&x, salt)) } else { None });
+}
+/// all rotations, the reversal and two random shuffles: every row visits every position
+fn hist_perms(r: &mut Sm64, n: usize, all_rotations: bool) -> Vec<Vec<usize>> {
+    let mut v: Vec<Vec<usize>> = Vec::new();
+    if n < 2 { return v; }
+    let rots: Vec<usize> = if all_rotations { (1..n).collect() } else { vec![1, n - 1] };
+    for k in rots { v.push((0..n).map(|i| (i + k) % n).collect()); }
+    v.push((0..n).rev().collect());
+    for _ in 0..2 { let mut idx: Vec<usize> = (0..n).collect(); r.shuffle(&mut idx); v.push(idx); }
+    v
+}
+/// the extreme value of a column is negative (column 0: largest magnitude and minimum), positive (column 1), tied
+/// (column 2) and sits at row `pos`; with all rotations it visits every row position incl. first and last
+fn hist_extreme<F: Fl>(cx: &mut Ctx, r: &mut Sm64, n: usize, pos: usize, m: Meth) {
+    let mut x: Vec<Vec<f64>> = (0..n).map(|_| vec![r.unit() * 2.0, -r.unit() * 2.0, r.range(-2, 2) as f64]).collect();
+    x[pos][0] = -(3.0 + r.unit());
+    x[pos][1] = 3.0 + r.unit();
+    x[pos][2] = -4.0;
+    if n >= 3 && r.chance(0.5) { x[(pos + 1) % n][2] = -4.0; }
+    let xf: Vec<Vec<F>> = x.iter().map(|row| row.iter().map(|v| F::of(*v)).collect()).collect();
+    let perms = hist_perms(r, n, true);
+    hist_lin_case::<F>(cx, r, m, xf, 3, &perms, "history_negative_extreme_every_position");
+}
+fn hist_lin_random<F: Fl>(cx: &mut Ctx, r: &mut Sm64, maxn: usize) {
+    let n = 2 + r.below(maxn as u64 - 1) as usize;
+    let p = 1 + r.below(4) as usize;
+    let mut cols = Vec::new();
+    for _ in 0..p { cols.push(gen_col(r, n, F::IS32).0); }
+    let x: Vec<Vec<F>> = cast_mat(&cols, n);
+    let m = match r.below(4) { 0 => Meth::MaxAbs, 1 => *r.pick(&[Meth::MinMax(0.0, 1.0), Meth::MinMax(-2.0, 3.0), Meth::MinMax(1.0, 2.0)]), _ => METHODS[r.below(9) as usize] };
+    let perms = hist_perms(r, n, n <= 6);
+    hist_lin_case::<F>(cx, r, m, x, p, &perms, "history_structured");
+}
+fn hist_norm_case<F: Fl>(cx: &mut Ctx, r: &mut Sm64) {
+    let id = cx.id;
+    cx.id += 1;
+    if !cx.out.wanted(id) { return; }
+    let p = 1 + r.below(5) as usize;
+    let which = r.below(3);
+    let (scaler, kname) = match which { 0 => (NormScaler::l1(), "NL1"), 1 => (NormScaler::l2(), "NL2"), _ => (NormScaler::max(), "NMax") };
+    let mut mk = |r: &mut Sm64| -> Vec<Vec<F>> {
+        let k = 1 + r.below(6) as usize;
+        (0..k).map(|_| {
+            let row: Vec<f64> = match r.below(5) {
+                0 => (0..p).map(|_| if r.chance(0.3) { -0.0 } else { 0.0 }).collect(),
+                1 => ext_row::<F>(r, p).0,
+                2 => (0..p).map(|_| r.range(-3, 3) as f64).collect(),
+                _ => { let s = *r.pick(&[1.0, 1.0e-9, 1.0e9]); (0..p).map(|_| s * r.gauss()).collect() }
+            };
+            row.iter().map(|v| F::of(*v)).collect()
+        }).collect()
+    };
+    let (b1, b2) = (mk(r), mk(r));
+    let fresh = scaler.clone();
+    let tags = vec![format!("norm_{}", kname), F::NAME.to_string(), "history".to_string()];
+    let tr: Vec<&str> = tags.iter().map(|s| s.as_str()).collect();
+    let desc = format!("{{\"kind\": \"history_norm\", \"dtype\": {}, \"norm\": {}, \"p\": {}, \"B1\": {:?}, \"B2\": {:?}}}", jstr(F::NAME), jstr(kname), p,
+        b1.iter().map(|r| r.iter().map(|v| v.to64()).collect::<Vec<f64>>()).collect::<Vec<_>>(), b2.iter().map(|r| r.iter().map(|v| v.to64()).collect::<Vec<f64>>()).collect::<Vec<_>>());
+    cx.out.bump(&format!("history_norm_{}", kname));
+    let used_f = |b: &[Vec<F>], cm: bool| guarded(AssertUnwindSafe(|| scaler.transform(arr(b, p, cm)))).ok().map(|a| rows(&a));
+    let fresh_f = |b: &[Vec<F>], cm: bool| guarded(AssertUnwindSafe(|| fresh.transform(arr(b, p, cm)))).ok().map(|a| rows(&a));
+    if let Some(w) = history_check::<F>(r, &used_f, &fresh_f, &b1, &b2) {
+        cx.out.rust_fail(id, HIST, &tr, &format!("NormScaler history: {}", w), &desc);
+    }
+    cx.out.rust_eval(&desc, Some(hash_mat(&b2, which + 4100)));
+}
+fn hist_whiten_case(cx: &mut Ctx, r: &mut Sm64) {
+    let id = cx.id;
+    cx.id += 1;
+    if !cx.out.wanted(id) { return; }
+    let p = 1 + r.below(3) as usize;
+    let n = p + 2 + r.below(8) as usize;
+    let sc_: Vec<f64> = (0..p).map(|_| *r.pick(&[0.5, 1.0, 2.0, 8.0])).collect();
+    let off: Vec<f64> = (0..p).map(|_| *r.pick(&[0.0, 3.0, -50.0])).collect();
+    let mut gen_rows = |r: &mut Sm64, k: usize| -> Vec<Vec<f64>> {
+        (0..k).map(|_| { let g: Vec<f64> = (0..p).map(|_| r.gauss()).collect(); (0..p).map(|j| off[j] + sc_[j] * (g[j] + 0.25 * g[(j + 1) % p])).collect() }).collect()
+    };
+    let x = gen_rows(r, n);
+    let k1 = 1 + r.below(6) as usize;
+    let k2 = 1 + r.below(6) as usize;
+    let b1 = gen_rows(r, k1);
+    let mut b2 = gen_rows(r, k2);
+    b2.push(x[r.below(n as u64) as usize].clone());
+    let which = r.below(3);
+    let (w, wname) = match which { 0 => (Whitener::pca(), "pca"), 1 => (Whitener::zca(), "zca"), _ => (Whitener::cholesky(), "cholesky") };
+    let tags = vec![format!("whiten_{}", wname), "history".to_string()];
+    let tr: Vec<&str> = tags.iter().map(|s| s.as_str()).collect();
+    let desc = format!("{{\"kind\": \"history_whiten\", \"method\": {}, \"n\": {}, \"p\": {}, \"X\": {:?}, \"B1\": {:?}, \"B2\": {:?}}}", jstr(wname), n, p, x, b1, b2);
+    cx.out.bump(&format!("history_whiten_{}", wname));
+    let ds = DatasetBase::new(arr(&x, p, false), Array2::<i64>::zeros((n, 1)));
+    let fitted = match guarded(AssertUnwindSafe(|| w.fit(&ds))) {
+        Ok(Ok(f)) => f,
+        _ => { cx.out.bump("history_whiten_fit_failed"); cx.out.rust_eval(&desc, None); return; }
+    };
+    let fresh = fitted.clone();
+    let used_f = |b: &[Vec<f64>], cm: bool| guarded(AssertUnwindSafe(|| fitted.transform(arr(b, p, cm)))).ok().map(|a| rows(&a));
+    let fresh_f = |b: &[Vec<f64>], cm: bool| guarded(AssertUnwindSafe(|| fresh.transform(arr(b, p, cm)))).ok().map(|a| rows(&a));
+    if let Some(wh) = history_check::<f64>(r, &used_f, &fresh_f, &b1, &b2) {
+        cx.out.rust_fail(id, HIST, &tr, &format!("FittedWhitener history: {}", wh), &desc);
+    }
+    if !biteq(&rows(&fitted.transformation_matrix().to_owned()), &rows(&fresh.transformation_matrix().to_owned())) || !biteq(&[fitted.mean().to_vec()], &[fresh.mean().to_vec()]) {
+        cx.out.rust_fail(id, HIST, &tr, "FittedWhitener: mean / matrix changed through transform calls", &desc);
+    }
+    cx.out.rust_eval(&desc, Some(fnv_f64s(&x.concat(), which + 4200)));
+}
+
 fn main() {
     let args = parse_args();
     let mut rng = Sm64::new(args.seed);
@@ -768,5 +1000,31 @@ fn main() {
         let mut r = rng.fork();
         if i % 10 < 6 { norm_case::<f64>(&mut cx, &mut r, 6, true); } else { norm_case::<f32>(&mut cx, &mut r, 6, true); }
     }
-    cx.out.finish("streams: fma self-test; exhaustive small (all columns over {-1,0,2}, n<=3 (4 thorough), 9 scaler variants + 2 min-max ranges of width one away from zero); empty training data x variants x p; structured random linear scalers (14 column families incl. offset / badly scaled / constant / zero / tiny spread / eps boundary, f64+f32, row+column major, min-max ranges incl. width one / width zero / wide / flipped, unseen data incl. copies, shifted rows and wrong widths); norm scalers (zero rows, single entries, 1e-9..1e9); norm scalers at extreme magnitudes, f64+f32 (12 row families: subnormal entries, one subnormal entry beside zeros incl. the values around 1/MAX, around the smallest normal number, near the largest finite number, l1 sum and squares next to their overflow / underflow borders, mixed magnitudes, border values; mixed with ordinary and zero rows); whiteners (3 methods, full rank, n>p). A case is non-trivial when its training data has at least two distinct rows; distinct = distinct (data, variant, dtype, layout) hashes");
+    // (e) round 5: histories (B1 then B2 vs a never-used clone / row by row / permuted) and the row order of the fitting data;
+    //     the extreme value of a column negative and in every row position (first and last included)
+    {
+        let mut r = rng.fork();
+        let ms = [Meth::MaxAbs, Meth::MinMax(0.0, 1.0), Meth::MinMax(-2.0, 3.0), Meth::Std(true, true)];
+        for n in 2..=(if thorough { 7usize } else { 5 }) {
+            for pos in 0..n {
+                for m in ms.iter() {
+                    let mut rc = r.fork();
+                    hist_extreme::<f64>(&mut cx, &mut rc, n, pos, *m);
+                    let mut rc = r.fork();
+                    hist_extreme::<f32>(&mut cx, &mut rc, n, pos, *m);
+                }
+            }
+        }
+        let (nh, nhn, nhw) = if thorough { (800, 300, 150) } else { (200, 80, 40) };
+        for i in 0..nh {
+            let mut rc = r.fork();
+            if i % 10 < 7 { hist_lin_random::<f64>(&mut cx, &mut rc, 24); } else { hist_lin_random::<f32>(&mut cx, &mut rc, 12); }
+        }
+        for i in 0..nhn {
+            let mut rc = r.fork();
+            if i % 10 < 7 { hist_norm_case::<f64>(&mut cx, &mut rc); } else { hist_norm_case::<f32>(&mut cx, &mut rc); }
+        }
+        for _ in 0..nhw { let mut rc = r.fork(); hist_whiten_case(&mut cx, &mut rc); }
+    }
+    cx.out.finish("streams: fma self-test; exhaustive small (all columns over {-1,0,2}, n<=3 (4 thorough), 9 scaler variants + 2 min-max ranges of width one away from zero); empty training data x variants x p; structured random linear scalers (14 column families incl. offset / badly scaled / constant / zero / tiny spread / eps boundary, f64+f32, row+column major, min-max ranges incl. width one / width zero / wide / flipped, unseen data incl. copies, shifted rows and wrong widths); norm scalers (zero rows, single entries, 1e-9..1e9); norm scalers at extreme magnitudes, f64+f32 (12 row families: subnormal entries, one subnormal entry beside zeros incl. the values around 1/MAX, around the smallest normal number, near the largest finite number, l1 sum and squares next to their overflow / underflow borders, mixed magnitudes, border values; mixed with ordinary and zero rows); whiteners (3 methods, full rank, n>p); histories (Rust-side, oracle bit 16384): a fitted linear scaler / norm scaler / whitener applied to B1 then B2 vs a never-used clone, row by row and the permuted B2, bit for bit, and refits on permuted training rows (all rotations, reversal, shuffles) incl. a stream with the extreme value of a column negative / positive / tied at every row position, f64+f32, row+column major. A case is non-trivial when its training data has at least two distinct rows; distinct = distinct (data, variant, dtype, layout) hashes");
 }
